@@ -9,6 +9,7 @@ import (
 	"os"
 	"path/filepath"
 	"regexp"
+	"strings"
 
 	"github.com/reedom/convergen/pkg/builder"
 	"github.com/reedom/convergen/pkg/builder/model"
@@ -111,13 +112,25 @@ func NewParser(srcPath, dstPath string) (*Parser, error) {
 	if fileSrc == nil {
 		return nil, logger.Errorf("%v: the setup file was not loaded (is it also the output path?)", srcPath)
 	}
+	imports := util.NewImportNames(fileSrc.Imports)
+	// An import without an explicit name is known by the name its package declares, which need not
+	// be the last element of the path (gopkg.in/yaml.v2, example.com/model/v2).
+	for _, spec := range fileSrc.Imports {
+		if spec.Name != nil {
+			continue
+		}
+		pkgPath := strings.ReplaceAll(spec.Path.Value, `"`, "")
+		if imported := pkgs[0].Imports[pkgPath]; imported != nil && imported.Name != "" {
+			imports[pkgPath] = imported.Name
+		}
+	}
 	return &Parser{
 		srcPath: fileSet.Position(fileSrc.Pos()).Filename,
 		fset:    fileSet,
 		file:    fileSrc,
 		pkg:     pkgs[0],
 		opts:    option.NewOptions(),
-		imports: util.NewImportNames(fileSrc.Imports),
+		imports: imports,
 	}, nil
 }
 
